@@ -122,10 +122,7 @@ DYADIC = [0.0, 0.25, 0.5, 0.75, 1.0]
 # ---------------------------------------------------------------------------- generation
 def gen_case(rng, backend, mode):
     lt = rng.choice(["dedupe_only", "link_only", "link_and_dedupe"])
-    if backend == "sqlite" and mode == "table":
-        # lower_id_on_lhs emits concat(), which the bundled SQLite (< 3.44) does not have: the real
-        # labels-table functions raise loudly for jobs with a source-dataset column (outside C15)
-        lt = "dedupe_only"
+    # (labels-table mode on SQLite link jobs works since /repo 4a90657c: lower_id_on_lhs no longer uses concat())
     ntab = 1 if lt == "dedupe_only" else rng.choice([2, 2, 3])
     names = ["ta", "tb", "tc"][:ntab]
     dom_a = ["x", "y", "xz", None]
@@ -205,7 +202,7 @@ def gen_case(rng, backend, mode):
         mode2 = mode
         if rng.random() < 0.25:
             other = "column" if mode == "table" else "table"
-            ok_other = (other == "column" and nrules >= 1) or (other == "table" and (backend != "sqlite" or lt == "dedupe_only"))
+            ok_other = (other == "column" and nrules >= 1) or (other == "table")
             mode2 = other if ok_other else mode
         second = {"mode": mode2, "round": rng.choice(rounds),
                   "ta": rng.choice([0.5, 0.25, 1.0]) if mode2 == "column" else rng.choice([0.5, 0.25, 0.75, 1.0, 0.0]),
